@@ -447,6 +447,13 @@ def gen_universe(rng, n_roots=None, max_levels=3, rich=True, force_falsy=False):
                     g = FieldSpec(f.name, role2, child_types=f.child_types, kw_only=True, has_default=True)
                 own2.append(g)
             classes.append(ClassSpec("P" + tag, None, own2, falsy=False))
+    # slotted dataclasses (dataclass re-creates the class: the library sees the name twice) for classes nothing derives
+    # from and that have a single base (seeded change C04-9: the discarded pre-slots class stayed registered)
+    if rich:
+        based_on = {c.base for c in classes} | {m for c in classes for m in c.mixins}
+        for c in classes:
+            if c.name not in based_on and not c.mixins and c.name not in mixin_names and rng.random() < 0.4:
+                c.slots = True
     u = Universe(classes, enum_name, future, uid)
     if force_falsy:
         # make sure some single-child field can hold a node that is falsy in a boolean context
